@@ -14,8 +14,8 @@ MUTS = {
    "            if modTime != glyph._dataOnDiskTimeStamp:\n                text = glyphSet.getGLIF(glyphName)",
    "            if modTime > glyph._dataOnDiskTimeStamp:\n                text = glyphSet.getGLIF(glyphName)"),
  "M3_inplace_save_does_not_restamp_glyph": ("Lib/defcon/objects/layer.py",
-   "            glyphSet.writeGlyph(glyph.name, glyph, glyph.drawPoints)\n            self._stampGlyphDataState(glyph, glyphSet=glyphSet)\n",
-   "            glyphSet.writeGlyph(glyph.name, glyph, glyph.drawPoints)\n            if saveAs:\n                self._stampGlyphDataState(glyph, glyphSet=glyphSet)\n"),
+   "            glyphSet.writeGlyph(glyph.name, glyph, drawPoints)\n            self._stampGlyphDataState(glyph, glyphSet=glyphSet)\n",
+   "            glyphSet.writeGlyph(glyph.name, glyph, drawPoints)\n            if saveAs:\n                self._stampGlyphDataState(glyph, glyphSet=glyphSet)\n"),
  "M4_reloadGlyphs_does_not_restamp": ("Lib/defcon/objects/layer.py",
    "                glyph.dirty = False\n                self._stampGlyphDataState(glyph)\n        data = dict(glyphNames=glyphNames)",
    "                glyph.dirty = False\n        data = dict(glyphNames=glyphNames)"),
@@ -51,6 +51,21 @@ MUTS.update({
  "M14_lazy_image_stamp_time_missing": ("Lib/defcon/objects/imageSet.py",
    "            d[\"onDiskModTime\"] = reader.getFileModificationTime(\"%s/%s\" % (\"images\", fileName))\n            d[\"onDiskDigest\"] = d[\"digest\"]\n",
    "            d[\"onDiskDigest\"] = d[\"digest\"]\n"),
+})
+
+MUTS.update({
+ "S1_saveas_keeps_glyphs_scheduled (seed C05-2)": ("Lib/defcon/objects/layer.py",
+   "                    glyphSet.deleteGlyph(glyphName)\n        glyphSet.writeContents()\n        self._glyphSet = glyphSet\n        self._scheduledForDeletion.clear()\n",
+   "                    glyphSet.deleteGlyph(glyphName)\n            self._scheduledForDeletion.clear()\n        glyphSet.writeContents()\n        self._glyphSet = glyphSet\n"),
+ "S2_saveas_keeps_images_scheduled": ("Lib/defcon/objects/imageSet.py",
+   "                pass\n        self._scheduledForDeletion.clear()\n",
+   "                pass\n        if not saveAs:\n            self._scheduledForDeletion.clear()\n"),
+ "S3_saveas_does_not_restamp_glyphs": ("Lib/defcon/objects/layer.py",
+   "            glyphSet.writeGlyph(glyph.name, glyph, drawPoints)\n            self._stampGlyphDataState(glyph, glyphSet=glyphSet)\n",
+   "            glyphSet.writeGlyph(glyph.name, glyph, drawPoints)\n            if not saveAs:\n                self._stampGlyphDataState(glyph, glyphSet=glyphSet)\n"),
+ "S4_saveas_does_not_restamp_layer_info": ("Lib/defcon/objects/layerSet.py",
+   "                glyphSet.writeLayerInfo(layer)\n                self._stampLayerInfoDataState(layer)\n",
+   "                glyphSet.writeLayerInfo(layer)\n                if not saveAs:\n                    self._stampLayerInfoDataState(layer)\n"),
 })
 
 def run(name):
